@@ -150,8 +150,18 @@ def run(case):
             elif cur[1] > opt:
                 viol.append({"kind": "mfdc_not_minimum", "msg": f"float weights: {cur[1]} walks although an integer-weighted decomposition has {opt}"})
         elif cur != base:
-            viol.append({"kind": "scale_dependent_down" if c < 1 else "scale_dependent_up", "scale": c, "scaled": list(cur), "unscaled": list(base),
-                         "msg": f"flow multiplied by {c} (float weights): (solved, walks) = {cur}, unscaled {base}"})
+            v_ = {"kind": "scale_dependent_down" if c < 1 else "scale_dependent_up", "scale": c, "scaled": list(cur), "unscaled": list(base),
+                  "msg": f"flow multiplied by {c} (float weights): (solved, walks) = {cur}, unscaled {base}"}
+            if c < 1:
+                # establish the cause: is the answer optimal among walks that repeat an SCC arc at most floor(scaled flow) times
+                # (the cap kFlowDecompCycles puts on its integer repetition variables)?  brute force over the capped family
+                import math
+                capj = [math.floor(f[e] * c + 1e-9) if g.is_scc_arc(*e) else 1 for e in E]
+                capped = [list(v) for v in vecs if all(v[j] <= capj[j] for j in range(len(E)))]
+                copt, _ = O.min_decomp(capped, [f[e] * c for e in E], "float") if capped else (None, None)
+                v_["optimal_within_cap"] = (cur == ((copt is not None), copt))
+                v_["msg"] += f"; minimum over walks repeating each SCC arc at most floor(scaled flow) times: {copt}"
+            viol.append(v_)
     if len(viol) > 4 or not case["full"]:
         return _ret(viol, nt, tags)
 
